@@ -254,12 +254,21 @@ fn pset_system<R: MkResult>(uid: SysUid)
     }
 }
 
+/// Constructed with the parameter state of an exclusive harness system: "created once" (C13) is counted here.
+pub struct CtorProbe;
+
+impl FromWorld for CtorProbe
+{
+    fn from_world(_: &mut World) -> Self { push(Ev::ExclStateCreated); CtorProbe }
+}
+
 fn exclusive_system<R: MkResult>(uid: SysUid)
-    -> impl FnMut(&mut World, &mut SystemState<AllReaders>, Local<u32>) -> R + Send + Sync + 'static
+    -> impl FnMut(&mut World, &mut SystemState<AllReaders>, Local<u32>, Local<CtorProbe>) -> R + Send + Sync + 'static
 {
     let canary = Canary{ sys: uid };
     let mut captured = 0u32;
-    move |world: &mut World, state: &mut SystemState<AllReaders>, mut local: Local<u32>| -> R
+    push(Ev::ExclSystemMade(uid));
+    move |world: &mut World, state: &mut SystemState<AllReaders>, mut local: Local<u32>, _probe: Local<CtorProbe>| -> R
     {
         let _ = &canary;
         captured += 1;
@@ -443,8 +452,11 @@ macro_rules! with_trigger
         match $key
         {
             KeyR::Broadcast(0) => { let $t = broadcast::<Pay<0>>(); $body }
+            // the resource type used as an event payload: a different registry keyed by the same `TypeId`
+            KeyR::Broadcast(2) => { let $t = broadcast::<RA>(); $body }
             KeyR::Broadcast(_) => { let $t = broadcast::<Pay<1>>(); $body }
             KeyR::AnyEntityEvent(0) => { let $t = any_entity_event::<Pay<0>>(); $body }
+            KeyR::AnyEntityEvent(2) => { let $t = any_entity_event::<RA>(); $body }
             KeyR::AnyEntityEvent(_) => { let $t = any_entity_event::<Pay<1>>(); $body }
             KeyR::EntityEvent(e, 0) => { let $t = entity_event::<Pay<0>>(e); $body }
             KeyR::EntityEvent(e, _) => { let $t = entity_event::<Pay<1>>(e); $body }
@@ -700,7 +712,7 @@ fn resolve_op(op: &Op, own: Option<SysUid>) -> (Resolved, Action)
                 let uid = resolve_sys(case, *s);
                 match sys_entity(case, uid)
                 {
-                    Some(e) => (Resolved::Sys(uid), Action::RunMany(e, 140 + 60 * (*k as u32 % 3))),
+                    Some(e) => (Resolved::Sys(uid), Action::RunMany(e, run_many_len(*k))),
                     None => (Resolved::Skipped(SkipReason::NoToken), Action::Nothing),
                 }
             }
@@ -857,6 +869,10 @@ fn keys_of(resolved: &Resolved) -> (SysUid, Vec<Key>)
         _ => (0, Vec::new()),
     }
 }
+
+/// How many manual runs `Op::RunMany(_, k)` queues at once: 140, 200, 260, or 1100 (a tree of more than a thousand
+/// commands, for thresholds in that range).
+pub fn run_many_len(k: u8) -> u32 { if k % 4 == 3 { 1100 } else { 140 + 60 * (k as u32 % 4) } }
 
 /// Performs the API call of an action through `Commands`.
 fn perform(c: &mut Commands, action: Action, resolved: &Resolved)
@@ -1072,8 +1088,49 @@ fn map_kind(kind: VerifApplyKind) -> HookKind
     }
 }
 
+thread_local!
+{
+    /// set while the sibling `App` of the same thread is at work: its hook events are not part of the case
+    static MUTED: std::cell::Cell<bool> = std::cell::Cell::new(false);
+}
+
+/// A second, unrelated `App` living on the same thread: a reactor, a counted entity, and between any two top-level ops of
+/// the case it broadcasts, collects and (every third time) runs a frame. Nothing of that may leak into the case's world.
+struct Sibling
+{
+    app: App,
+    rounds: u32,
+}
+
+impl Sibling
+{
+    fn new() -> Self
+    {
+        let mut app = App::new();
+        app.add_plugins(ReactPlugin);
+        app.world_mut().react(|rc| { rc.on_persistent(broadcast::<u8>(), || {}); });
+        Sibling{ app, rounds: 0 }
+    }
+
+    fn work(&mut self)
+    {
+        MUTED.with(|m| m.set(true));
+        self.rounds += 1;
+        let world = self.app.world_mut();
+        // a counted entity whose signal is dropped at once, a reaction tree, a collection
+        let e = world.spawn_empty().id();
+        let sig = world.resource::<AutoDespawner>().prepare(e);
+        drop(sig);
+        world.broadcast(self.rounds as u8);
+        garbage_collect_entities(world);
+        if self.rounds % 3 == 0 { self.app.update(); }
+        MUTED.with(|m| m.set(false));
+    }
+}
+
 pub fn forward_hook(ev: VerifEvent)
 {
+    if MUTED.with(|m| m.get()) { return; }
     let mapped = match ev
     {
         VerifEvent::Apply{ id, kind, sys, source, .. } =>
@@ -1279,10 +1336,13 @@ fn run_inner(program: &Program)
     }
     verif_set_sink(Box::new(forward_hook));
     quiescent(app.world_mut(), 0);
+    // in a third of the programs a sibling App on the same thread works between the top-level ops
+    let mut sibling = if program.setup.n_entities % 3 == 0 { Some(Sibling::new()) } else { None };
 
     for (i, top) in program.top.iter().enumerate()
     {
         let i = i as u32;
+        if let Some(s) = sibling.as_mut() { s.work(); }
         push(Ev::TopBegin(i));
         let mut frame_ran = false;
         match top.via
